@@ -110,7 +110,12 @@ def w_model(case):
     cov = None if case.get('cov') is None else np.array(case['cov'], dtype=float)
     c = None if case.get('dlogp') is None else \
         np.array(case['dlogp'], dtype=float).reshape(obs.shape)
-    if case.get('resize_from'):
+    if case.get('early'):
+        # the wrapper was created, and its parameters fixed, for one individual; the
+        # number of individuals is set afterwards
+        m = popbuild.build_early(spec, n_ids)
+        m.set_n_ids(n_ids)
+    elif case.get('resize_from'):
         # the model was used for another number of individuals before
         m = popbuild.build(spec, case['resize_from'])
         m.set_n_ids(n_ids)
@@ -313,6 +318,25 @@ def w_model(case):
                 _cmp(viol, 'red_grad', 'reduce-form sensitivities are not the '
                      'derivatives w.r.t. (individual entries, population '
                      'parameters) (%s)' % lab, e_red, ds)
+                # documented: `reduce` is prioritised over `flattened`
+                for flag in (False, 0, np.bool_(False), True):
+                    try:
+                        res_f = _sens(m, spec, top.copy(), obs.copy(),
+                                      None if c is None else c.copy(), cov,
+                                      reduce=True, flattened=flag)
+                    except TypeError:
+                        break        # no such argument on this class
+                    ntr += 1
+                    ok_f = len(res_f) == 2 and np.shape(res_f[1]) == ds.shape and \
+                        tol.allclose(np.asarray(res_f[1], dtype=float), ds)
+                    if not ok_f:
+                        viol.append({'sub': 'red_flat', 'message': 'reduce form '
+                                     'depends on the `flattened` flag (%r) although '
+                                     'reduce is documented to take priority (%s)'
+                                     % (flag, lab), 'expected': ds,
+                                     'observed': res_f[1] if len(res_f) > 1 else
+                                     len(res_f), 'behaviour': 'red_flat'})
+                        break
             outcome += [ds]
     else:
         # score must be -inf in all forms
@@ -472,6 +496,17 @@ def build(tier, seed):
                 for with_c in (False, True):
                     cov_cases.append(make_case(
                         rp.Cov(inner, n_cov), n_ids, seed, with_c))
+    # covariates acting on a subset of the population parameters (the others keep
+    # their own sensitivities)
+    for inner, sels in ((rp.G(2), ([[0, 0]], [[0, 1], [1, 0]], [[1, 1]])),
+                        (rp.LN(1), ([[0, 0]], [[1, 0]])),
+                        (rp.TG(2), ([[0, 1]], [[0, 0], [0, 1]])),
+                        (rp.G(2, False), ([[1, 0]],))):
+        for sel in sels:
+            for n_cov in (1, 2):
+                for n_ids in range(1, max_ids + 1):
+                    cov_cases.append(make_case(
+                        rp.Cov(inner, n_cov, sel), n_ids, seed, True))
     # composed: all sequences of k parts over the alphabet
     kinds = ['G', 'Gnc', 'LN', 'LNnc', 'TG', 'P', 'H', 'Cov(G)', 'Cov(LNnc)',
              'Cov(P)', 'Cov(TG)']
@@ -529,6 +564,20 @@ def build(tier, seed):
                 for idx in itertools.combinations(range(n), r):
                     spec = rp.Red(base, {i: full[i] for i in idx})
                     red_cases.append(make_case(spec, n_ids, seed, True))
+    # wrappers fixed for one individual around compositions whose heterogeneous block
+    # comes before the fixed parameter, then told the number of individuals
+    for base in (rp.Comp([rp.H(1), rp.G(1)]), rp.Comp([rp.H(2), rp.LN(1)]),
+                 rp.Comp([rp.P(1), rp.H(1), rp.G(1, False)]),
+                 rp.Comp([rp.G(1), rp.H(1)])):
+        for n_ids in (2, 3):
+            n = rp.n_top(base, n_ids)
+            full = popvals.top_values(base, n_ids, seed)
+            for i in range(n):
+                spec = rp.Red(base, {i: full[i]})
+                if popbuild.build_early(spec, n_ids) is not None:
+                    c_ = make_case(spec, n_ids, seed, True)
+                    c_['early'] = True
+                    red_cases.append(c_)
     return {
         'parts': [
             Part('elementary', elem_cases, w_model,
